@@ -13,6 +13,7 @@ TB = [
     "the name -> identifier derivation of the SQLite form (name.split(' ')[0], name.split('.')[0]) is modelled by a structurally recursive function on characters (headUntil); on every `sig` op the Lean driver compares it with String.splitOn and the stream compares the resulting identifiers with Python's split",
     "`sourmash lca index` (Model/LcaIndex.lean: load_taxonomy_assignments with -C/--start-column, header detection, --split-identifiers, --keep-identifier-versions, null names, duplicate identifiers, -f; the main loop with duplicate md5s, --require-taxonomy, --fail-on-missing-taxonomy; the --report counts) is tied to the code by running the real argument parser and command on one-signature files and a generated spreadsheet (`index` op) and comparing exit code, report counts and every table of the database it wrote; argparse, csv, the signature file format are trusted",
     "the command-line layer (Model/LcaCli.lean: summarize_main / load_singletons_and_count / count_signature / output_csv, classify, make_lca_counts / rankinfo_main, compare_csv, zip_lineage / display_lineage / is_lineage_match / make_lineage; MultiLineageDB.save + LineageDB_Sqlite) is tied to the code by running sourmash.__main__.main(argv) in process on files the adapter writes (databases saved as JSON or their SQLite file, one query signature per file) and comparing the CSV rows / rank counts / verdict lines; the human-readable stdout of summarize is executed but not compared",
+    "`lca index --split-identifiers`: the identifier normalisation of the spreadsheet side (load_taxonomy_assignments) and of the signature side (index) are two functions of the model, each selected by its own translator item (Gen.idxTaxVersionCut / Gen.idxSigVersionCut, read from the statement at its site); the oracle of the `index` op is written from the documentation (one normalisation for both sides) and checks every answer of the database the command wrote",
     "md5 is not modelled: the generator computes md5(str(internal ksize) + retained hashes) itself, the adapter refuses a `sig` op whose md5 is not the real md5sum, and the model takes it as given (default identifiers of unnamed signatures, duplicate detection of `lca index`)",
     "`minhash.downsample(scaled=S).hashes` is modelled as the sketch's hashes <= max_hash (C01/C03's subject); Python dict ordering is modelled as insertion order; the iteration order of Python sets (the idx sets of _hashval_to_idx, rebuilt with set(list) by load) is a CPython artefact: the model keeps first-insertion order and every observation that comes out of a set (lineage lists, identifier lists, hash values, signatures) is sorted on both sides; json, sqlite3, gzip, the filesystem are trusted",
 ]
